@@ -31,6 +31,12 @@ import Scc.Backend.Mock
 import Scc.Backend.AbstractMachine
 import Scc.X86.Machine
 import Scc.A64.Machine
+import Scc.RV.Machine
+import Scc.X86.Backend
+import Scc.A64.Backend
+import Scc.RV.Backend
+import Scc.Fun2Core.Hygiene
+import Scc.Fun.ZeroEdge
 
 open Scc
 
@@ -94,6 +100,13 @@ def dispatch (line : String) : IO String := do
   | ["mock", file, hooks, c0] => do
     let text ← IO.FS.readFile file
     pure (Scc.Backend.runLineMock text (hooks == "1") c0.toNat!)
+  | ["codegen", arch, file, hooks, c0] => do
+    let text ← IO.FS.readFile file
+    match arch with
+    | "x86" => pure (Scc.X86.runLineCodegen text (hooks == "1") c0.toNat!)
+    | "a64" => pure (Scc.A64.runLineCodegen text (hooks == "1") c0.toNat!)
+    | "rv" => pure (Scc.RV.runLineCodegen text (hooks == "1") c0.toNat!)
+    | _ => pure "ERR unknown arch"
   | ["sem", machine, file, args, fuel] => do
     let text ← IO.FS.readFile file
     let args := if args == "-" then "" else args
@@ -111,21 +124,25 @@ def dispatch (line : String) : IO String := do
     | _ => pure "ERR unknown machine"
   | ["asm", arch, file, args, fuel, mon] => do
     let text ← IO.FS.readFile file
-    let args := if args == "-" then "" else args
+    let args := if args == "-" then "" else args.replace "," " "
     match arch with
     | "x86" => pure (Scc.X86.runLine text args fuel.toNat! mon)
     | "a64" => pure (Scc.A64.runLine text args fuel.toNat! mon)
+    | "rv" => pure (Scc.RV.runLine text args fuel.toNat! mon)
     | _ => pure "ERR unknown arch"
   | ["wf", arch, file] => do
     let text ← IO.FS.readFile file
     match arch with
     | "x86" => pure (match Scc.X86.wfCheck text with | .ok () => "OK" | .error e => "ILL " ++ e)
     | "a64" => pure (Scc.A64.wfLine text)
+    | "rv" => pure (match Scc.RV.wfCheck text with | .ok () => "OK" | .error e => "ILL " ++ e)
     | _ => pure "ERR unknown arch"
   | ["typ", kind, file] => do
     let text ← IO.FS.readFile file
     match kind with
     | "seq" => pure (Scc.Fun.sequencedLine text)
+    | "hyg" => pure (Scc.Fun2Core.hygLine text)
+    | "zeroedge" => pure (Scc.Fun.Parse.zeroEdgeLine text)
     | "core" => pure (Scc.Core.runLineWellTyped text)
     | "fs" => pure (Scc.Core2AxCut.checkFsLine text)
     | "unique" => pure (Scc.Core.runLineUniqueCheck text)
